@@ -133,6 +133,10 @@ def run(ctx, rep):
         rep.instance(R8, ok=ok8, nontrivial=case8)
         if not ok8:
             rep.finding(R8, f'C10.R8/{case8}', cons8[0].split(' ')[0], 'cpl.Rules.IdentityIndiscernability._get_node_targets', f'{case8}: {detail8}')
+    R9 = rep.rule('C10.R9', 'an added premise cannot make a rule lose sight of a constant, world or node: the helper bookkeeping folds of C04.R7 (every tracked universal node '
+                            'gets every constant on the branch, its own included, whatever else is on the branch)')
+    n9 = common.bookkeeping(ctx, rep, R9, 'C10.R9')
+    rep.floor('C10.R9', 'bookkeeping cases', n9, 90)
     RF = rep.rule('C10.R7', 'no starvation behind the fairness gate (the C02.R8 fold): whenever some node still has an accessible world it was not applied to, the box-type rules offer a target -- an unsaturated open branch would make the verdict depend on which further premises are present')
     common.fair_gate(ctx, rep, RF, 'C10.R7')
 
